@@ -14,7 +14,9 @@ real resolver's annotated AST of every accepted program of the run stream; a pro
 When only the static TIE is broken (resolver model and real resolver disagree, no program violating the static
 rules found), the dynamic half is run all the same: it is the search for a concrete program on which the property
 itself fails (its scoping stream holds the shapes that need a binding to go wrong at run time: one string with the
-same placeholder several times read in a function called under a same-named variable, same-named functions ...)."""
+same placeholder several times read in a function called under a same-named variable, same-named functions ...).
+Both models follow the REAL resolver's binding annotations, so a binding the resolver gets wrong is invisible to the run
+correspondence: `templates` adds implementation-level oracles for it (same-block re-declaration at another type)."""
 import os
 
 import resolvelib
@@ -166,12 +168,57 @@ def dynamic_half(ck, quick):
             known += 1
     ck.count("known_finding_hits", known)
     ck.count("wellscoped_failures", len(not_ws))
+    templates(ck, quick, streams)
     if not_ws:
         r = min(not_ws, key=len)
         ck.report_violation({"kind": "hypothesis-not-met", "family": "run", "what": "the real resolver's annotations of "
                              "this accepted program are not WellScoped (hypothesis of Props/C04.lean c04_dynamic): the "
                              "dynamic theorem does not cover it", "program": runlib.src_of(r), "requests": [r]})
     return streams
+
+
+def templates(ck, quick, streams):
+    """Re-declaration templates (`nvh run gen --kind c04`): one name `make`-declared several times in ONE block at
+    DIFFERENT literal types (number / string / bool / array / null, a dynamic initialiser and the same type as
+    controls), capturing functions defined between the declarations (plain reads, `{x}` placeholders once and twice,
+    `typeof`, `x get ..` writes, a read two functions deep) and called after the later ones; hosts: top level,
+    function body, loop body, branch. Three implementation-level oracles, none of which uses the resolver model or
+    the evaluator model (both follow the REAL resolver's bindings, so a wrong binding is invisible to the run
+    correspondence): the output the generator computes (plain Rust: a re-declaration re-binds the same variable),
+    the same program run by name (`Runtime::run` without the resolver's facts; the template's names are unique), and,
+    on EVERY program of every run stream, the resolver's facts themselves (two `make`s of one name directly in one
+    block bind one local). A failure is a failing input for C04: shrunk (statement deletion, the oracles still
+    failing) and reported."""
+    reqs = ck.gen(runlib.FAMILY, ["--kind", "c04", "--n", 1500 if quick else 20000])
+    res = ck.corr(runlib.FAMILY, reqs, label="run-c04-templates", timeout=7200)
+    info = runlib.classify(ck, "c04tmpl", reqs, res)
+    ck.extra_cov["c04_redeclaration_template_programs"] = info["cases"]
+    streams["templates"] = {"requests": reqs, "res": res, "info": info}
+    fails = [f for f in ck.oracle_fails if f.get("family") == runlib.FAMILY and f.get("what", "").startswith("[C04]")]
+    ck.count("c04_oracle_failures", len(fails))
+    if not fails:
+        return
+    # behavioural failures (expected output, by-name run) before the purely static one; small programs first
+    fails.sort(key=lambda f: ("scope tags" in f["what"], len(f.get("request", ""))))
+    f = fails[0]
+    src = runlib.src_of(f["request"])
+
+    def still(s):
+        _r, a, _b, fl = runlib.one_case(ck, s, guard=True)
+        c04 = [x for x in fl if "[C04]" in x]
+        # a template (marker line kept) has to keep its behavioural failure, any other program its static one
+        if src.startswith("# c04:unique-names"):
+            return a.endswith("end=ok") and any("by-name" in x and "end=rt:" not in x for x in c04)
+        return a != "rejected" and bool(c04)
+
+    small = runlib.shrink_program(ck, src, still) if len(src) < 6000 and still(src) else src
+    req, a, b, fl = runlib.one_case(ck, small)
+    if not any("[C04]" in x for x in fl):
+        small, req = src, f["request"]
+        _r, a, b, fl = runlib.one_case(ck, small)
+    ck.report_violation({"kind": "impl-vs-oracle", "family": "run", "what": f["what"][:600], "program": small,
+                         "generated_program": src, "requests": [req, f["request"]], "impl": a, "model": b,
+                         "oracle_fails": fl, "replay_cmd": "./check C04 --replay <this file>"})
 
 
 def replay(ck, data):
